@@ -2,7 +2,7 @@ package props
 
 import (
 	"fmt"
-	"go/token"
+	_ "go/token"
 	"go/types"
 	"strings"
 
@@ -178,24 +178,30 @@ func resolveTaskLane(p *core.Prog) *tlInfo {
 		if body == nil {
 			continue
 		}
-		recvBuffered := false
-		sx.Instrs(body, func(in ssa.Instruction) {
-			if s, ok := in.(*ssa.Select); ok {
-				for _, st := range s.States {
-					if st.Dir == types.RecvOnly && t.chanRole(st.Chan) == "buffered" {
-						recvBuffered = true
+		// the queue goroutine is the one that hands tasks over (sends on the hand-over channels, possibly in helpers);
+		// the worker is the one from which Task.Start is reachable
+		handsOver := false
+		for f := range reachableFrom(p, body) {
+			sx.Instrs(f, func(in ssa.Instruction) {
+				if s, ok := in.(*ssa.Select); ok {
+					for _, st := range s.States {
+						if role := t.chanRole(st.Chan); st.Dir == types.SendOnly && (role == "blocking" || role == "shared") {
+							handsOver = true
+						}
 					}
 				}
-			}
-			if u, ok := in.(*ssa.UnOp); ok && u.Op == token.ARROW && t.chanRole(u.X) == "buffered" {
-				recvBuffered = true
-			}
-		})
+				if sd, ok := in.(*ssa.Send); ok {
+					if role := t.chanRole(sd.Chan); role == "blocking" || role == "shared" {
+						handsOver = true
+					}
+				}
+			})
+		}
 		switch {
-		case recvBuffered:
-			t.Queue = body
-		case startReach(body):
+		case startReach(body) && !handsOver:
 			t.Worker = body
+		case handsOver:
+			t.Queue = body
 		}
 	}
 	ms := p.SSA.MethodSets.MethodSet(types.NewPointer(t.Named))
